@@ -159,8 +159,13 @@ func c16Cases(thorough bool) []c16Case {
 		for _, o2 := range otherSets {
 			for _, vt := range []bool{true, false} {
 				if thorough {
-					for ai, acc := range accKinds {
-						add(op, o2, vt, acc, ai%nm, ai%nd)
+					// the full product: pool layout x other owner x vesting type x accounts x minter x distributor
+					for _, acc := range accKinds {
+						for mi := 0; mi < nm; mi++ {
+							for di := 0; di < nd; di++ {
+								add(op, o2, vt, acc, mi, di)
+							}
+						}
 					}
 				} else {
 					add(op, o2, vt, accKinds[5], 1, 1)
